@@ -73,6 +73,11 @@ def kepler_position(l, a, ecc, i, om, arg):
     return math.degrees(math.atan2(y, x)) % 360.0, r_k
 
 
+def kepler_latitude(l, a, ecc, i, om, arg):
+    E, v = kepler_equation(ecc, l - arg - om)
+    return math.degrees(math.asin(math.sin((v + arg).rad()) * math.sin(i.rad())))
+
+
 def check_epoch(nm, jde):
     M, P = mod(nm)
     out = []
@@ -113,6 +118,23 @@ def check_epoch(nm, jde):
                     "at JDE %r" % (nm, L._deg, lonk, dl, jde), dl))
     if abs(R - rk) / rk > 0.01:
         out.append(("kepler_r", "%s R = %r vs Kepler %r at JDE %r" % (nm, R, rk, jde), abs(R - rk) / rk))
+    latk = kepler_latitude(l, a, ecc, i, om, arg)
+    if abs(B._deg - latk) > KEPLER_TOL[nm]:
+        out.append(("kepler_lat", "%s VSOP87 latitude %r vs Kepler position from the mean elements %r at JDE %r"
+                    % (nm, B._deg, latk, jde), abs(B._deg - latk)))
+    # the second element set (equinox J2000) against the J2000 position, where the library has one
+    if hasattr(P, "geometric_heliocentric_position_j2000") and hasattr(P, "orbital_elements_j2000"):
+        try:
+            Lj, Bj, Rj = P.geometric_heliocentric_position_j2000(e, tofk5=False)
+            ej = P.orbital_elements_j2000(e)
+            lonj, rj = kepler_position(*ej)
+            latj = kepler_latitude(*ej)
+            dj = max(abs(wrap180(Lj._deg - lonj)), abs(Bj._deg - latj))
+            if dj > KEPLER_TOL[nm] or abs(Rj - rj) / rj > 0.01:
+                out.append(("kepler_j2000", "%s J2000 position (%r, %r, %r) vs Kepler position from the J2000 elements "
+                            "(%r, %r, %r) at JDE %r" % (nm, Lj._deg, Bj._deg, Rj, lonj, latj, rj, jde), dj))
+        except Exception as ex:
+            out.append(("exception", "%s J2000 elements / position raised %r at JDE %r" % (nm, ex, jde), None))
     # evaluator vs direct summation of the same tables
     t = (e.jde() - J2000) / 365250.0
     try:
@@ -263,6 +285,101 @@ def run_seam(block, ctx):
         ctx.obs(nm, y, js)
     ctx.outcome(nm)
     ctx.sample({"planet": nm, "seam_search_from_year": years[0]})
+
+
+# -- zero crossings of the quantities the FK5 correction is built from ------------------------------------------
+
+def fk5_quantities(nm, j):
+    M, P = mod(nm)
+    L, B, R = P.geometric_heliocentric_position(Epoch(j), tofk5=False)
+    T = (j - J2000) / 36525.0
+    lp = math.radians(L._deg - T * (1.397 + 0.00031 * T))
+    return (B._deg, math.cos(lp) - math.sin(lp), math.cos(lp) + math.sin(lp))
+
+
+def check_fk5(case):
+    """FK5 correction at one instant: tofk5=True minus tofk5=False against the documented expression."""
+    nm, j = case["planet"], case["jde"]
+    M, P = mod(nm)
+    try:
+        e = Epoch(j)
+        L, B, R = P.geometric_heliocentric_position(e, tofk5=False)
+        L1, B1, R1 = P.geometric_heliocentric_position(e)
+    except Exception as ex:
+        return [("exception", "%s at JDE %r raised %r" % (nm, j, ex), None)]
+    T = (e.jde() - J2000) / 36525.0
+    lp = math.radians(L._deg - T * (1.397 + 0.00031 * T))
+    exp_l = -0.09033 + 0.03916 * (math.cos(lp) + math.sin(lp)) * math.tan(B.rad())
+    exp_b = 0.03916 * (math.cos(lp) - math.sin(lp))
+    got_l = wrap180(L1._deg - L._deg) * 3600.0
+    got_b = (B1._deg - B._deg) * 3600.0
+    if abs(got_l - exp_l) > 1e-6 or abs(got_b - exp_b) > 1e-6 or R1 != R:
+        return [("fk5", "%s FK5 correction (%r, %r) arcsec, documented (%r, %r) at JDE %r [%s]"
+                 % (nm, got_l, got_b, exp_l, exp_b, j, case.get("what", "")), max(abs(got_l - exp_l), abs(got_b - exp_b)))]
+    return []
+
+
+def run_fk5_zeros(spec, ctx):
+    """spec = (planet, start year, span in days, step in days): the latitude B, cos l' - sin l' (the latitude
+    correction) and cos l' + sin l' (the coefficient of tan B) of the tofk5=False position are scanned; every
+    sign change is narrowed to two adjacent doubles by bisection and the FK5 correction is checked there and on
+    the 2 doubles on each side - where a 'nothing to correct' shortcut would be taken."""
+    nm, year, span, step = spec
+    j = y2jde(year)
+    end = j + span
+    prev = fk5_quantities(nm, j)
+    found = 0
+    while j < end:
+        j2 = j + step
+        cur = fk5_quantities(nm, j2)
+        ctx.evals += 1
+        for k, what in enumerate(("latitude = 0", "cos - sin = 0", "cos + sin = 0")):
+            if (prev[k] > 0.0) != (cur[k] > 0.0) and abs(prev[k] - cur[k]) < 1.0:
+                lo, hi, slo = j, j2, prev[k] > 0.0
+                while True:
+                    mid = lo + (hi - lo) / 2.0
+                    if mid <= lo or mid >= hi:
+                        break
+                    ctx.evals += 1
+                    if (fk5_quantities(nm, mid)[k] > 0.0) == slo:
+                        lo = mid
+                    else:
+                        hi = mid
+                pts = [lo, hi]
+                a, b = lo, hi
+                for _ in range(2):
+                    a, b = math.nextafter(a, -math.inf), math.nextafter(b, math.inf)
+                    pts += [a, b]
+                found += 1
+                for t in pts:
+                    ctx.evals += 1
+                    ctx.nt_count += 1
+                    case = {"planet": nm, "jde": t, "what": what}
+                    for site, msg, dev in check_fk5(case):
+                        ctx.viol(case, msg, dev=dev, site="fk5_zero")
+        j, prev = j2, cur
+    ctx.count("fk5_zero_crossings", found)
+    ctx.outcome((nm, found > 0))
+    ctx.obs(nm, year, found)
+    ctx.sample({"planet": nm, "year": year, "crossings": found})
+
+
+def fk5_specs(tier):
+    out = []
+    years = (-1990, -500, 1000, 2000, 3900) if tier == "thorough" else (-1990, 2000, 3900)
+    for nm in NAMES:
+        M, P = mod(nm)
+        a = M.ORBITAL_ELEM[1][0]
+        period = 365.25 * a ** 1.5
+        for y in years:
+            if nm == "Earth":
+                # the Earth's latitude (|B| < 1.2 arcsec) changes sign every few days
+                for q in range(4):
+                    out.append((nm, y + 0.25 * q, 91.4, 0.5))
+            else:
+                span = min(period * 1.02, (y2jde(4000) - 3.0) - y2jde(y))
+                out.append((nm, y, span, period / 80.0))
+    return out
 
 
 # -- monotone longitude over whole orbits ----------------------------------------------
@@ -549,6 +666,8 @@ def clauses(tier):
                lambda c: [m for _, m, _ in check_second(c)], floor=100),
         Clause("term_zero_crossings", chunks(term_cases(tier), 64), run_terms,
                lambda c: [m for _, m, _ in check_term(c)], floor=300),
+        Clause("fk5_zero_crossings", fk5_specs(tier), run_fk5_zeros, lambda c: [m for _, m, _ in check_fk5(c)],
+               floor=500),
         Clause("tables", [[{"planet": nm} for nm in NAMES]], run_tables,
                lambda c: [m for _, m, _ in check_tables(c)], floor=8),
     ]
